@@ -977,6 +977,10 @@ def c16_families(rng, tier):
     return [
         fam("one_two_bits", ["twofrombc %d" % v for v in vals], "ALL 64 x 64 one- and two-bit values (ordered pairs, so every two-bit value twice) and 0",
             exhaustive=True, pinned=True),
+        fam("three_bits", ["twofrombc %d" % ((1 << a) | (1 << b) | (1 << c)) for a in range(64) for b in range(a) for c in range(b)],
+            "ALL 41,664 three-bit values (too many cards, whatever the bits)", exhaustive=True, profiles=["release"], pinned=True),
+        fam("two_cards_in_complement", ["twofrombc %d" % (((1 << 64) - 1) ^ ((1 << a) | (1 << b))) for a in range(64) for b in range(a)],
+            "the complements of all two-bit values (62 bits set)", exhaustive=True, profiles=["release"], pinned=True),
         fam("seeded_popcounts", ["twofrombc %d" % v for v in rnd], "seeded u64 of every population count 0..64", pinned=True),
     ]
 
